@@ -272,8 +272,12 @@ def random_history(rnd, bases, real, maxlen, steps):
             ev.append({"op": "ClearCache"})
         elif r < 0.45 and real.its:
             t = rnd.randrange(len(real.its))
+            if getattr(real, "it_len", {}).get(id(real.its[t]), 0) >= maxlen:
+                continue              # a generator that reached the longest explored length is left suspended
             try:
                 q = next(real.its[t])
+                real.it_len = getattr(real, "it_len", {})
+                real.it_len[id(real.its[t])] = len(q)
                 ev.append({"op": "NextIt", "t": t + 1, "stop": False, "q": list(q)})
             except StopIteration:
                 real.its.pop(t)
@@ -433,7 +437,9 @@ def validate(ctx, events, mod, k):
     ctx.add_tlc(res, "trace validation")
     done = [r for r in res.records if isinstance(r, dict) and "verdict" in r]
     if len(done) != 1 or done[0]["n"] != len(events):
-        raise tlc.MachineryFailure("Trace_C02: trace not fully consumed\n" + res.stdout[-1500:])
+        stuck = events[res.distinct - 1] if 0 < res.distinct <= len(events) else None
+        raise tlc.MachineryFailure("Trace_C02: trace not fully consumed; no action of the trace spec was enabled for event %d: %s "
+                                   "(preceded by %s)" % (res.distinct, stuck, events[max(0, res.distinct - 4):res.distinct - 1]))
     ctx.traces += sum(1 for e in events if e["op"] == "Reset")
     return done[0]
 
